@@ -255,6 +255,7 @@ package kcp
 //@   requires kcp.wf()
 //@   requires @C04 (sndwnd <= 0 || (kcp.snd_buf.rlen() <= sndwnd && sndwnd < 2147483648))
 //@   requires @C04 (rcvwnd <= 0 || (kcp.rcv_queue.rlen() <= rcvwnd && rcvwnd < 2147483648))
+//@   requires @C04 (rcvwnd <= 0 || rcvwnd >= kcp.rcv_wnd || forall s uint32 :: !in(kcp.rcv_buf.marks, s))
 //@   modifies kcp.snd_wnd, kcp.rcv_wnd
 //@   ensures kcp.wf() && result == 0
 //
@@ -417,3 +418,74 @@ package kcp
 //@   requires kcp.wf()
 //@   modifies nothing
 //@   loop 1 invariant true
+
+// ===================================================================================
+// fec.go / autotune.go
+// ===================================================================================
+//
+//@ func fecPacket.seqid pure
+//@   requires len(bts) >= 4
+//@   ensures result == le32(bts, 0)
+//@ func fecPacket.flag pure
+//@   requires len(bts) >= 6
+//@   ensures result == le16(bts, 4)
+//@ func fecPacket.data pure
+//@   requires len(bts) >= 6
+//@   ensures result == bts[6:]
+//
+//@ func newShardHeap
+//@   ensures result != nil && fresh(result) && result.marks != nil && fresh(result.marks) && result.elements == nil
+//@   ensures len(result.marks) == 0 && forall s uint32 :: !in(result.marks, s)
+//@ func shardHeap.Len pure
+//@   ensures result == len(h.elements)
+//@ func shardHeap.Has pure
+//@   ensures result == in(h.marks, sn)
+//@ func shardHeap.Less pure
+//@   requires 0 <= i && i < len(h.elements) && 0 <= j && j < len(h.elements) && len(h.elements[i]) >= 4 && len(h.elements[j]) >= 4
+//@ func shardHeap.Swap
+//@   requires 0 <= i && i < len(h.elements) && 0 <= j && j < len(h.elements)
+//@   modifies h.elements[..]
+//@ func shardHeap.Push
+//@   requires typeis(x, fecPacket) && h.marks != nil && len(unboxval(x, fecPacket)) >= 4
+//@   modifies all(h), h.elements[..], mapof(h.marks)
+//@   ensures len(h.elements) == old(len(h.elements)) + 1 && h.marks == old(h.marks)
+//@   ensures h.elements[len(h.elements) - 1] == unboxval(x, fecPacket)
+//@   ensures ref(h.elements) == old(ref(h.elements)) || fresh(h.elements)
+//@   ensures forall k int :: 0 <= k && k < old(len(h.elements)) ==> h.elements[k] == old(h.elements[k])
+//@ func shardHeap.Pop
+//@   requires len(h.elements) > 0 && h.marks != nil && len(h.elements[len(h.elements) - 1]) >= 4
+//@   modifies all(h), h.elements[..], mapof(h.marks)
+//@   ensures typeis(result, fecPacket) && unboxval(result, fecPacket) == old(h.elements[len(h.elements) - 1])
+//@   ensures len(h.elements) == old(len(h.elements)) - 1 && h.marks == old(h.marks) && ref(h.elements) == old(ref(h.elements))
+//@   ensures forall k int :: 0 <= k && k < len(h.elements) ==> h.elements[k] == old(h.elements[k])
+//
+//@ pred (tune *autoTune) wf() = 0 <= tune.head && tune.head < 258 && 0 <= tune.tail && tune.tail < 258 && 0 <= tune.count && tune.count <= 258
+//@ func autoTune.Sample
+//@   requires tune.wf()
+//@   modifies tune
+//@   ensures tune.wf()
+//
+// D-INV: the FEC decoder. Every buffered packet is a pool buffer long enough to carry the FEC
+// header; shard sets owned by different ids are different objects with different backing arrays.
+//@ pred pktok(p fecPacket) = 6 <= len(p) && len(p) <= 1500 && cap(p) == 1500
+//@ pred (h *shardHeap) wf() = h.marks != nil && forall k int :: 0 <= k && k < len(h.elements) ==> pktok(h.elements[k])
+//@ pred (dec *fecDecoder) wfP() = 0 < dec.dataShards && 0 < dec.parityShards && dec.shardSize == dec.dataShards + dec.parityShards
+//@      && dec.shardSize <= 256 && len(dec.decodeCache) == dec.shardSize && len(dec.flagCache) == dec.shardSize
+//@      && dec.shardSet != nil && dec.codec != nil && dec.autoTune.wf()
+//@ pred (dec *fecDecoder) wfSets() = (forall id uint32 :: in(dec.shardSet, id) ==> dec.shardSet[id] != nil && dec.shardSet[id].wf())
+//@      && (forall a uint32, b uint32 :: in(dec.shardSet, a) && in(dec.shardSet, b) && a != b ==> dec.shardSet[a] != dec.shardSet[b]
+//@          && (ref(dec.shardSet[a].elements) != ref(dec.shardSet[b].elements) || ref(dec.shardSet[a].elements) == 0))
+//@ pred (dec *fecDecoder) wf() = dec.wfP() && dec.wfSets()
+//
+//@ func newFECDecoder
+//@   ensures result != nil ==> fresh(result) && result.wf() && result.dataShards == dataShards && result.parityShards == parityShards
+//
+//@ func fecDecoder.getShardId inline
+//
+//@ func fecDecoder.discardShards
+//@   requires dec.wf()
+//@   modifies mapof(dec.shardSet), DefaultSnmp.FECShardSet
+//@   ensures dec.wf()
+//@   ensures forall id uint32 :: in(dec.shardSet, id) ==> old(in(dec.shardSet, id))
+//@   loop 1 invariant dec.wf() && forall id uint32 :: in(dec.shardSet, id) ==> old(in(dec.shardSet, id))
+//@   loop 2 invariant true
